@@ -44,6 +44,16 @@ macro_rules! witness {
                 self.0.hash(h)
             }
         }
+        impl PartialOrd for $name {
+            fn partial_cmp(&self, o: &Self) -> Option<std::cmp::Ordering> {
+                Some(self.0.cmp(&o.0))
+            }
+        }
+        impl Ord for $name {
+            fn cmp(&self, o: &Self) -> std::cmp::Ordering {
+                self.0.cmp(&o.0)
+            }
+        }
         impl fmt::Display for $name {
             fn fmt(&self, f: &mut fmt::Formatter) -> fmt::Result {
                 write!(f, "{}", self.0)
@@ -151,12 +161,136 @@ macro_rules! k_loop {
     };
 }
 
+// ---------------------------------------------------------------------------
+// Value probes: the search builders, paths and iterators live in private
+// modules and cannot be named, so their auto traits are asked of *values*
+// (autoref dispatch: the inherent method exists only when the bound holds).
+// ---------------------------------------------------------------------------
+struct V<T>(PhantomData<T>);
+fn v_of<T>(_: &T) -> V<T> {
+    V(PhantomData)
+}
+fn v_of_opt<T>(_: &Option<T>) -> V<T> {
+    V(PhantomData)
+}
+trait FbSend {
+    fn is_send(&self) -> bool {
+        false
+    }
+}
+trait FbSync {
+    fn is_sync(&self) -> bool {
+        false
+    }
+}
+impl<T> FbSend for &V<T> {}
+impl<T> FbSync for &V<T> {}
+impl<T: Send> V<T> {
+    fn is_send(&self) -> bool {
+        true
+    }
+}
+impl<T: Sync> V<T> {
+    fn is_sync(&self) -> bool {
+        true
+    }
+}
+
+macro_rules! vrow {
+    ($fl:expr, $what:expr, $kc:expr, $nc:expr, $ec:expr, $v:expr) => {{
+        let v = $v;
+        println!("VROW {} {} {} {} {} {} {}", $fl, $what, $kc, $nc, $ec, (&v).is_send(), (&v).is_sync());
+    }};
+}
+
+macro_rules! vrows_directed {
+    ($m:ident, $k:expr, $n:expr, $e:expr, $kc:expr, $nc:expr, $ec:expr) => {{
+        use gdsl::$m::*;
+        let fl = stringify!($m);
+        let a = Node::new($k, $n);
+        let b = Node::new($k, $n);
+        a.connect(&b, $e);
+        let guard = Rc::new(0u8);
+        let mut cb = |_e: &Edge<_, _, _>| {
+            let _ = &guard;
+        };
+        vrow!(fl, "bfs-builder", $kc, $nc, $ec, v_of(&a.bfs()));
+        vrow!(fl, "dfs-builder", $kc, $nc, $ec, v_of(&a.dfs()));
+        vrow!(fl, "pfs-builder", $kc, $nc, $ec, v_of(&a.pfs()));
+        vrow!(fl, "preorder-builder", $kc, $nc, $ec, v_of(&a.preorder()));
+        vrow!(fl, "postorder-builder", $kc, $nc, $ec, v_of(&a.postorder()));
+        vrow!(fl, "bfs-builder-with-closure", $kc, $nc, $ec, v_of(&a.bfs().for_each(&mut cb)));
+        vrow!(fl, "dfs-builder-with-closure", $kc, $nc, $ec, v_of(&a.dfs().for_each(&mut cb)));
+        vrow!(fl, "pfs-builder-with-closure", $kc, $nc, $ec, v_of(&a.pfs().for_each(&mut cb)));
+        vrow!(fl, "preorder-builder-with-closure", $kc, $nc, $ec, v_of(&a.preorder().for_each(&mut cb)));
+        vrow!(fl, "path", $kc, $nc, $ec, v_of_opt(&a.bfs().search_cycle()));
+        vrow!(fl, "iter_out", $kc, $nc, $ec, v_of(&a.iter_out()));
+        vrow!(fl, "iter_in", $kc, $nc, $ec, v_of(&a.iter_in()));
+        vrow!(fl, "into_iter", $kc, $nc, $ec, v_of(&(&a).into_iter()));
+        vrow!(fl, "yielded-edge", $kc, $nc, $ec, v_of_opt(&a.iter_out().next()));
+        vrow!(fl, "found-node", $kc, $nc, $ec, v_of_opt(&a.find_outbound(b.key())));
+        vrow!(fl, "node-vec", $kc, $nc, $ec, v_of(&a.preorder().search_nodes()));
+    }};
+}
+
+macro_rules! vrows_undirected {
+    ($m:ident, $k:expr, $n:expr, $e:expr, $kc:expr, $nc:expr, $ec:expr) => {{
+        use gdsl::$m::*;
+        let fl = stringify!($m);
+        let a = Node::new($k, $n);
+        let b = Node::new($k, $n);
+        a.connect(&b, $e);
+        let guard = Rc::new(0u8);
+        let mut cb = |_e: &Edge<_, _, _>| {
+            let _ = &guard;
+        };
+        vrow!(fl, "bfs-builder", $kc, $nc, $ec, v_of(&a.bfs()));
+        vrow!(fl, "dfs-builder", $kc, $nc, $ec, v_of(&a.dfs()));
+        vrow!(fl, "pfs-builder", $kc, $nc, $ec, v_of(&a.pfs()));
+        vrow!(fl, "order-builder", $kc, $nc, $ec, v_of(&a.order()));
+        vrow!(fl, "bfs-builder-with-closure", $kc, $nc, $ec, v_of(&a.bfs().for_each(&mut cb)));
+        vrow!(fl, "dfs-builder-with-closure", $kc, $nc, $ec, v_of(&a.dfs().for_each(&mut cb)));
+        vrow!(fl, "pfs-builder-with-closure", $kc, $nc, $ec, v_of(&a.pfs().for_each(&mut cb)));
+        vrow!(fl, "order-builder-with-closure", $kc, $nc, $ec, v_of(&a.order().for_each(&mut cb)));
+        vrow!(fl, "path", $kc, $nc, $ec, v_of_opt(&a.bfs().search_cycle()));
+        vrow!(fl, "iter", $kc, $nc, $ec, v_of(&a.iter()));
+        vrow!(fl, "into_iter", $kc, $nc, $ec, v_of(&(&a).into_iter()));
+        vrow!(fl, "yielded-edge", $kc, $nc, $ec, v_of_opt(&a.iter().next()));
+        vrow!(fl, "found-node", $kc, $nc, $ec, v_of_opt(&a.find_adjacent(b.key())));
+        vrow!(fl, "node-vec", $kc, $nc, $ec, v_of(&a.order().pre().search_nodes()));
+    }};
+}
+
+macro_rules! vrows {
+    ($k:expr, $n:expr, $e:expr, $kc:expr, $nc:expr, $ec:expr) => {
+        vrows_directed!(sync_digraph, $k, $n, $e, $kc, $nc, $ec);
+        vrows_directed!(digraph, $k, $n, $e, $kc, $nc, $ec);
+        vrows_undirected!(sync_ungraph, $k, $n, $e, $kc, $nc, $ec);
+        vrows_undirected!(ungraph, $k, $n, $e, $kc, $nc, $ec);
+    };
+}
+
+fn value_probes() {
+    let g = || B0(1, 0);
+    vrows!(g(), g(), g(), 0, 0, 0);
+    vrows!(g(), g(), B1(1, Cell::new(0)), 0, 0, 1);
+    vrows!(g(), g(), B2(1, RawSync(std::ptr::null())), 0, 0, 2);
+    vrows!(g(), g(), B3(1, std::ptr::null()), 0, 0, 3);
+    vrows!(g(), B1(1, Cell::new(0)), g(), 0, 1, 0);
+    vrows!(g(), B2(1, RawSync(std::ptr::null())), g(), 0, 2, 0);
+    vrows!(g(), B3(1, std::ptr::null()), g(), 0, 3, 0);
+    vrows!(B1(1, Cell::new(0)), g(), g(), 1, 0, 0);
+    vrows!(B2(1, RawSync(std::ptr::null())), g(), g(), 2, 0, 0);
+    vrows!(B3(1, std::ptr::null()), g(), g(), 3, 0, 0);
+}
+
 fn main() {
     // sanity of the witnesses themselves
     println!("WIT A {} {} {} {} {} {} {} {}", <W<A0>>::SEND, <W<A0>>::SYNC, <W<A1>>::SEND, <W<A1>>::SYNC, <W<A2>>::SEND, <W<A2>>::SYNC, <W<A3>>::SEND, <W<A3>>::SYNC);
     println!("WIT B {} {} {} {} {} {} {} {}", <W<B0>>::SEND, <W<B0>>::SYNC, <W<B1>>::SEND, <W<B1>>::SYNC, <W<B2>>::SEND, <W<B2>>::SYNC, <W<B3>>::SEND, <W<B3>>::SYNC);
     k_loop!("A", A0, A1, A2, A3);
     k_loop!("B", B0, B1, B2, B3);
+    value_probes();
     let _ = generic_positive::<u8, u8, u8>;
     println!("GENERIC-POSITIVE ok");
 }
